@@ -262,9 +262,9 @@ convert(struct func *f, struct type *dst, struct type *src, struct value *l)
 	struct value *r = NULL;
 	int class;
 
-	if (src->kind == TYPEPOINTER)
+	if (src->kind == TYPEPOINTER || src->kind == TYPENULLPTR)
 		src = &typeulong;
-	if (dst->kind == TYPEPOINTER)
+	if (dst->kind == TYPEPOINTER || dst->kind == TYPENULLPTR)
 		dst = &typeulong;
 	if (dst->kind == TYPEVOID)
 		return NULL;
